@@ -289,6 +289,16 @@ pub fn c09(ctx: &Ctx) -> i32 {
                                 bad("different_seed_same_run", format!("seeds {} and {} both give {:x?}", c.seed, c2.seed, d1), &mut viols);
                             }
                         }
+                        // seeds that differ only in a high bit
+                        let mut c4 = c.clone();
+                        c4.seed = c.seed ^ (1u64 << (32 + (i % 31)));
+                        if let Ok(d4) = catch(|| run_sim(&c4, false)) {
+                            runs += 1;
+                            seed_pairs += 1;
+                            if d4 == d1 {
+                                bad("different_seed_same_run", format!("seeds {} and {} both give {:x?}", c.seed, c4.seed, d1), &mut viols);
+                            }
+                        }
                     }
                 }
                 let mut m = merged.lock().unwrap();
